@@ -365,8 +365,10 @@ type Env struct {
 	OnEnter        func(x *Exe, inv *Inv)
 	Held           int // permits held through a standalone API
 	Notes          string
-	Reduce         bool // observation points are scheduling points on the env (needed with the state cache)
-	Tick           int  // number of observation points so far (a logical clock over observations)
+	QuietCounts    []quietCount // quiet mode: how often each listener fired (no per-event record)
+	Grants         [][2]int64   // (limiter index, instant at which a permit obtained through its standalone API becomes usable)
+	Reduce         bool         // observation points are scheduling points on the env (needed with the state cache)
+	Tick           int          // number of observation points so far (a logical clock over observations)
 	OnEvent        func(e *Event)
 	CancelAtReturn map[*Rec]bool // hedge attempts: was the attempt's execution cancelled when the hedge returned
 }
@@ -471,9 +473,44 @@ func applyHandle[B interface {
 	return b
 }
 
+type quietCount struct {
+	P    int
+	Name string
+	N    int
+}
+
+// countQuiet uses a slice, not a map: the runtime's map functions report to the race detector whatever
+// the caller's pragma says.
+//
+//go:norace
+func (env *Env) countQuiet(p int, name string) {
+	for i := range env.QuietCounts {
+		if c := &env.QuietCounts[i]; c.P == p && c.Name == name {
+			c.N++
+			return
+		}
+	}
+	env.QuietCounts = append(env.QuietCounts, quietCount{p, name, 1})
+}
+
+func (env *Env) quietCount(p int, name string) int {
+	for _, c := range env.QuietCounts {
+		if c.P == p && c.Name == name {
+			return c.N
+		}
+	}
+	return 0
+}
+
+//go:norace
+func (env *Env) addGrant(limiter int, at int64) {
+	env.Grants = append(env.Grants, [2]int64{int64(limiter), at})
+}
+
 //go:norace
 func (env *Env) ev(e Event) {
 	if env.Quiet {
+		env.countQuiet(e.Policy, e.Name)
 		return
 	}
 	e.At = vrt.Elapsed()
